@@ -233,8 +233,25 @@ class SvNeedsSubFloat(DataOperation):
         return FloatDataType
 
     def _process_logic(self, data):
-        _invoke("SvNeedsSubFloat", {}, data)
+        _invoke("SvNeedsSubFloat", "SvRaiseOdd", "SvProbeNone", {}, data)
         return FloatDataType(data.data)
+
+
+class SvOddError(Exception):
+    """A domain exception that cannot be built from a single message string (like json.JSONDecodeError)."""
+
+    def __init__(self, code: int, where: str):
+        super().__init__(f"odd error {code} at {where}")
+        self.code = code
+        self.where = where
+
+
+class SvRaiseOdd(_FloatOp):
+    """Always raises SvOddError."""
+
+    def _process_logic(self, data, code: float = 7.0):
+        _invoke("SvRaiseOdd", {"code": code}, data)
+        raise SvOddError(int(code), "SvRaiseOdd")
 
 
 class SvCtxWriterA(_FloatOp):
@@ -339,6 +356,14 @@ class SvProbe(_FloatProbe):
         return data.data * 1.0
 
 
+class SvProbeNone(_FloatProbe):
+    """A probe whose result is None (a legal context value)."""
+
+    def _process_logic(self, data):
+        _invoke("SvProbeNone", {}, data)
+        return None
+
+
 class SvProbeParam(_FloatProbe):
     """Returns value plus a required offset."""
 
@@ -409,7 +434,7 @@ class SvBadCtxProc(ContextProcessor):
 
 LEAF_NAMES = [
     "SvSource", "SvSourceDefault", "SvPayloadSource", "SvAdd", "SvAddDefault", "SvMul",
-    "SvMulDefault", "SvAffine", "SvSlow", "SvCaseOp", "SvScaleInPlace", "SvToStream", "SvStreamSum", "SvNeedsSubFloat", "SvCtxWriterA", "SvCtxWriterB", "SvBadWriter", "SvToText",
+    "SvMulDefault", "SvAffine", "SvSlow", "SvCaseOp", "SvScaleInPlace", "SvToStream", "SvStreamSum", "SvNeedsSubFloat", "SvRaiseOdd", "SvProbeNone", "SvCtxWriterA", "SvCtxWriterB", "SvBadWriter", "SvToText",
     "SvTextLen", "SvCollSum", "SvProbe", "SvProbeParam", "SvProbeDefault", "SvFileSink",
     "SvNullSink", "SvCtxCombine", "SvBadCtxProc",
 ]
